@@ -191,4 +191,61 @@ example : (stepEv (run [.create [10, 11], .deliver 2] (Sys.init [0, 1])) (.relay
 example : pevsValid [.op (.var 0), .ev (.deliver 1), .op (.not 2), .ev (.relayPoll 2), .ev (.recvPoll 2)] 2 := by
   simp [pevsValid, Op.valid, VBOT]
 
+/-! ## the relay does not depend on its downstream receiver
+
+In the code a relay forwards every consumed node into its own channel and ignores a failed send (the
+receiving end may be gone): what the relay holds and answers is a function of the producer side only.
+In the model this is the statement that receiver polls can be deleted from any schedule - in
+particular from the point at which the receiver is dropped - without changing the producer, the
+first channel, the relay's table, its counter or any of its answers. -/
+
+/-- everything upstream of the second channel -/
+def upstream {α : Type} (s : Sys α) : List α × List α × List α × List α × Nat :=
+  (s.prod, s.pend, s.q1, s.relay, s.k1)
+
+def isRecvPoll {α : Type} : Ev α → Bool
+  | .recvPoll _ => true
+  | _ => false
+
+theorem upstream_step {α : Type} (s s' : Sys α) (e : Ev α) (h : upstream s = upstream s') :
+    upstream (stepEv s e).1 = upstream (stepEv s' e).1 ∧
+    (isRecvPoll e = false → (stepEv s e).2 = (stepEv s' e).2) := by
+  simp only [upstream, Prod.mk.injEq] at h
+  obtain ⟨h1, h2, h3, h4, h5⟩ := h
+  cases e <;> simp [stepEv, upstream, isRecvPoll, h1, h2, h3, h4, h5]
+
+theorem upstream_recvPoll {α : Type} (s : Sys α) (t : Nat) :
+    upstream (stepEv s (.recvPoll t)).1 = upstream s := by
+  simp [stepEv, upstream]
+
+/-- **relay_independent_of_receiver.** For every schedule, deleting all receiver polls (e.g. because
+the receiver has gone away) leaves producer, pending messages, first channel, relay table and relay
+counter exactly as they are -/
+theorem relay_independent_of_receiver {α : Type} (evs : List (Ev α)) :
+    ∀ s s' : Sys α, upstream s = upstream s' →
+      upstream (run evs s) = upstream (run (evs.filter (fun e => !isRecvPoll e)) s') := by
+  induction evs with
+  | nil => intro s s' h; simpa [run] using h
+  | cons e evs ih =>
+    intro s s' h
+    cases hr : isRecvPoll e with
+    | true =>
+      cases e <;> simp [isRecvPoll] at hr
+      rename_i t
+      simp only [run, List.foldl_cons, List.filter_cons, isRecvPoll, Bool.not_true, Bool.false_eq_true, if_false]
+      exact ih _ _ (by rw [upstream_recvPoll]; exact h)
+    | false =>
+      simp only [run, List.foldl_cons, List.filter_cons, hr, Bool.not_false, if_true]
+      exact ih _ _ (upstream_step s s' e h).1
+
+/-- … and the relay gives the same answer to a poll placed after either schedule -/
+theorem relay_answers_independent_of_receiver {α : Type} (evs : List (Ev α)) (c : List α) (t : Nat) :
+    (stepEv (run evs (Sys.init c)) (.relayPoll t)).2 =
+    (stepEv (run (evs.filter (fun e => !isRecvPoll e)) (Sys.init c)) (.relayPoll t)).2 :=
+  (upstream_step _ _ (.relayPoll t) (relay_independent_of_receiver evs _ _ rfl)).2 rfl
+
+example :
+    upstream (run [.create [10, 11], .deliver 2, .recvPoll 5, .relayPoll 3, .recvPoll 2] (Sys.init [0, 1])) =
+    upstream (run [.create [10, 11], .deliver 2, .relayPoll 3] (Sys.init [0, 1])) := by decide
+
 end C19
